@@ -355,6 +355,52 @@ theorem rand48_seq_function_of_seed (seed : Nat) (ops : List Op) (w w' : World) 
   simp only [List.zip_cons_cons, List.filter_cons, ht, Bool.not_false, if_true, List.map_cons]
   exact ⟨by rw [ho]; exact congrArg (_ :: ·) i1, i2⟩
 
+/-- TWO live objects: in every interleaving of calls on object `a`, on object `b` and on the static state, the values
+returned by the calls on `a` and `a`'s final state do not depend on what `b` and the static state hold — the model has no
+state shared between objects (no function-local `static`, no common buffer).  True by construction of `step2`; the tie is
+the harness mode `twoObjects` (two live `Rand48` and two live `Rand32` objects, random interleavings, each stream against the
+same calls on a lone object and against glibc on a private array). -/
+theorem object_stream_independent_of_other_object (cs : List (Bool × Op)) (w w' : World2) (ha : w.a = w'.a) :
+    outsOfA cs w = outsOfA cs w' ∧ (run2 cs w).1.a = (run2 cs w').1.a := by
+  induction cs generalizing w w' with
+  | nil => exact ⟨rfl, ha⟩
+  | cons c cs ih =>
+    obtain ⟨tag, op⟩ := c
+    unfold outsOfA at ih ⊢
+    simp only [run2, List.zip_cons_cons, List.filter_cons]
+    cases h : Op.touchesStat op with
+    | true =>
+      have u1 : (step2 w (tag, op)).2.a = w.a := by
+        cases tag
+        · exact (step_static ⟨w.a, w.stat⟩ ⟨w.a, w.stat⟩ op h rfl).1
+        · rfl
+      have u2 : (step2 w' (tag, op)).2.a = w'.a := by
+        cases tag
+        · exact (step_static ⟨w'.a, w'.stat⟩ ⟨w'.a, w'.stat⟩ op h rfl).1
+        · rfl
+      obtain ⟨i1, i2⟩ := ih (step2 w (tag, op)).2 (step2 w' (tag, op)).2 (by rw [u1, u2, ha])
+      simp only [Bool.not_true, Bool.and_false]
+      exact ⟨i1, i2⟩
+    | false =>
+      cases tag with
+      | true =>
+        obtain ⟨i1, i2⟩ := ih (step2 w (true, op)).2 (step2 w' (true, op)).2 (by simpa [step2] using ha)
+        simp only [Bool.not_true, Bool.false_and]
+        exact ⟨i1, i2⟩
+      | false =>
+        obtain ⟨_, o, u⟩ := step_nonstatic ⟨w.a, w.stat⟩ ⟨w'.a, w'.stat⟩ op h ha
+        have o' : (step2 w (false, op)).1 = (step2 w' (false, op)).1 := o
+        have u' : (step2 w (false, op)).2.a = (step2 w' (false, op)).2.a := u
+        obtain ⟨i1, i2⟩ := ih _ _ u'
+        simp only [Bool.not_false, Bool.and_true, if_true, List.map_cons]
+        exact ⟨by rw [o', i1], i2⟩
+
+example : outsOfA [(false, .r48nexti), (true, .r48nextf), (false, .drand48), (false, .r48nextb)]
+      ⟨{ s0 := 1, s1 := 2, s2 := 3 }, { s0 := 4, s1 := 5, s2 := 6 }, staticInit⟩ =
+    outsOfA [(false, .r48nexti), (true, .r48nextf), (false, .drand48), (false, .r48nextb)]
+      ⟨{ s0 := 1, s1 := 2, s2 := 3 }, { s0 := 0xffff, s1 := 0, s2 := 7 }, { s0 := 9, s1 := 9, s2 := 9 }⟩ :=
+  (object_stream_independent_of_other_object _ _ _ rfl).1
+
 /-- non-vacuity / concrete instance: member calls interleaved with static-state calls, started from two
 different prior object contents and two different static states -/
 example : outsOf (fun op => !Op.touchesStat op) [.r48init 7, .r48nexti, .lrand48, .r48nextf, .srand48 3, .r48nextb]
@@ -501,9 +547,11 @@ theorem gaussRand_real (x y : ℝ) (h0 : 0 < x * x + y * y) (h1 : x * x + y * y 
 example : (0 : ℝ) < (1 / 2) * (1 / 2) + (1 / 2) * (1 / 2) ∧ ((1 / 2 : ℝ)) * (1 / 2) + (1 / 2) * (1 / 2) < 1 := by
   norm_num
 
-/-- a priori bound on the Gaussian deviate: `length2` is a `float`, so an accepted `length2 > 0` is at least the
-smallest positive float `2^-149`; then (over ℝ) `|x · sqrt (-2 log l / l)| ≤ sqrt (298 log 2) < 15`.  The residue harness
-checks the measured maximum of `|gaussRand|` against this bound, not merely `isfinite`. -/
+/-- EXACT arithmetic only: if the exact real sum `x² + y²` is at least `2^-149`, then `|x · sqrt (-2 log l / l)| ≤
+sqrt (298 log 2) < 15`.  This is NOT a bound on what the C++ computes for an arbitrary generator: there `length2` is the
+float-ROUNDED sum, and in the subnormal range a product can round down (`x = 1.67·2^-75`, `y = 0`: `x²` rounds to
+`L = 2^-149 < x²`, deviate ≈ 16.9) — see the example after `gaussRand_bound_rand48`.  The statement about the rounded
+`length2` is `gaussRand_bound_of_float` below; the residue uses its two instances. -/
 theorem gaussRand_real_bound (x y : ℝ) (h0 : (2 : ℝ) ^ (-149 : ℤ) ≤ x * x + y * y) (h1 : x * x + y * y < 1) :
     |x * Real.sqrt (-2 * Real.log (x * x + y * y) / (x * x + y * y))| ≤ 15 := by
   have hp : (0 : ℝ) < (2 : ℝ) ^ (-149 : ℤ) := by positivity
@@ -520,6 +568,94 @@ theorem gaussRand_real_bound (x y : ℝ) (h0 : (2 : ℝ) ^ (-149 : ℤ) ≤ x * 
 example : (2 : ℝ) ^ (-149 : ℤ) ≤ (1 / 2) * (1 / 2) + (1 / 2) * (1 / 2) := by
   have : (2 : ℝ) ^ (-149 : ℤ) ≤ 1 := zpow_le_one_of_nonpos₀ (by norm_num) (by norm_num)
   linarith
+
+/-- the bound with the float-rounded `length2` as a SEPARATE variable `L`: if `2^-n ≤ L < 1` and the candidate's
+exact square is at most `(1+δ)·L` (δ = the relative rounding of `L = fl (fl (x²) + fl (y²))` in the normal range), then the
+argument of the `sqrt` is positive and `(x · sqrt (-2 log L / L))² ≤ (1+δ) · 2n log 2`. -/
+theorem gaussRand_bound_of_float (n : ℕ) (x L δ : ℝ) (hδ : 0 ≤ δ) (hL : (2 : ℝ) ^ (-(n : ℤ)) ≤ L) (hL1 : L < 1)
+    (hx : x * x ≤ (1 + δ) * L) :
+    0 < -2 * Real.log L / L ∧
+    (x * Real.sqrt (-2 * Real.log L / L)) ^ 2 ≤ (1 + δ) * (2 * n * Real.log 2) := by
+  have hp : (0 : ℝ) < (2 : ℝ) ^ (-(n : ℤ)) := by positivity
+  have hl : 0 < L := lt_of_lt_of_le hp hL
+  have hneg := Real.log_neg hl hL1
+  have hpos : 0 < -2 * Real.log L / L := div_pos (by linarith) hl
+  refine ⟨hpos, ?_⟩
+  have hlog : Real.log ((2 : ℝ) ^ (-(n : ℤ))) ≤ Real.log L := Real.log_le_log hp hL
+  rw [Real.log_zpow] at hlog
+  push_cast at hlog
+  rw [mul_pow, Real.sq_sqrt hpos.le]
+  have h1 : x ^ 2 * (-2 * Real.log L / L) ≤ (1 + δ) * L * (-2 * Real.log L / L) :=
+    mul_le_mul_of_nonneg_right (by rw [pow_two]; exact hx) hpos.le
+  have h2 : (1 + δ) * L * (-2 * Real.log L / L) = (1 + δ) * (-2 * Real.log L) := by
+    field_simp
+  have h3 : (1 + δ) * (-2 * Real.log L) ≤ (1 + δ) * (2 * n * Real.log 2) :=
+    mul_le_mul_of_nonneg_left (by linarith) (by linarith)
+  linarith
+
+/-- what `Rand32` can reach: `nextf (-1, 1) = 2f − 1` exactly, a multiple of `2^-22` (`f = m/2^23`), so an accepted
+candidate has `|x| ≥ 2^-22` or `x = 0`, all products are normal floats with relative error ≤ 2^-24, hence
+`L ≥ 2^-44 ≥ 2^-46` and `x² ≤ L / (1 − 2^-24)² ≤ (1 + 2^-22) L`: the deviate is at most 8 in absolute value.  (Both
+hypotheses are re-measured on every run on the real generator — harness mode `residue`, field `gauss_hyp_bad` — and the
+measured maximum of `|gaussRand|` is compared with 8.) -/
+theorem gaussRand_bound_rand32 (x L : ℝ) (hL : (2 : ℝ) ^ (-(46 : ℤ)) ≤ L) (hL1 : L < 1)
+    (hx : x * x ≤ (1 + 2 ^ (-(22 : ℤ))) * L) : |x * Real.sqrt (-2 * Real.log L / L)| ≤ 8 := by
+  have hd : (0 : ℝ) ≤ 2 ^ (-(22 : ℤ)) := by positivity
+  obtain ⟨_, h⟩ := gaussRand_bound_of_float 46 x L _ hd (by exact_mod_cast hL) hL1 hx
+  have h2 := Real.log_two_lt_d9
+  have h0 := Real.log_two_gt_d9
+  have hs : (2 : ℝ) ^ (-(22 : ℤ)) ≤ 1 / 4000000 := by norm_num [zpow_neg]
+  have hdl : (2 : ℝ) ^ (-(22 : ℤ)) * Real.log 2 ≤ 1 / 4000000 := by
+    have := mul_le_mul hs (show Real.log 2 ≤ 1 by linarith) (by linarith) (by norm_num : (0 : ℝ) ≤ 1 / 4000000)
+    linarith
+  set a := x * Real.sqrt (-2 * Real.log L / L)
+  have hb : a ^ 2 ≤ 64 := by
+    push_cast at h
+    have e : (1 + (2 : ℝ) ^ (-(22 : ℤ))) * (2 * 46 * Real.log 2) = 92 * Real.log 2 + 92 * ((2 : ℝ) ^ (-(22 : ℤ)) * Real.log 2) := by ring
+    rw [e] at h
+    generalize (2 : ℝ) ^ (-(22 : ℤ)) * Real.log 2 = q at h hdl
+    generalize Real.log 2 = t at h h2
+    norm_num at h2
+    linarith
+  exact abs_le.mpr ⟨by nlinarith [sq_nonneg (a - 8), sq_nonneg (a + 8)], by nlinarith [sq_nonneg (a - 8), sq_nonneg (a + 8)]⟩
+
+/-- what `Rand48` can reach: `nextf (-1, 1) = 2f − 1` exactly, a multiple of `2^-51`, converted to `float` (normal range):
+`|x| ≥ 2^-51` or `x = 0`, `L ≥ 2^-102`, same relative error: the deviate is at most 12 in absolute value. -/
+theorem gaussRand_bound_rand48 (x L : ℝ) (hL : (2 : ℝ) ^ (-(102 : ℤ)) ≤ L) (hL1 : L < 1)
+    (hx : x * x ≤ (1 + 2 ^ (-(22 : ℤ))) * L) : |x * Real.sqrt (-2 * Real.log L / L)| ≤ 12 := by
+  have hd : (0 : ℝ) ≤ 2 ^ (-(22 : ℤ)) := by positivity
+  obtain ⟨_, h⟩ := gaussRand_bound_of_float 102 x L _ hd (by exact_mod_cast hL) hL1 hx
+  have h2 := Real.log_two_lt_d9
+  have h0 := Real.log_two_gt_d9
+  have hs : (2 : ℝ) ^ (-(22 : ℤ)) ≤ 1 / 4000000 := by norm_num [zpow_neg]
+  have hdl : (2 : ℝ) ^ (-(22 : ℤ)) * Real.log 2 ≤ 1 / 4000000 := by
+    have := mul_le_mul hs (show Real.log 2 ≤ 1 by linarith) (by linarith) (by norm_num : (0 : ℝ) ≤ 1 / 4000000)
+    linarith
+  set a := x * Real.sqrt (-2 * Real.log L / L)
+  have hb : a ^ 2 ≤ 144 := by
+    push_cast at h
+    have e : (1 + (2 : ℝ) ^ (-(22 : ℤ))) * (2 * 102 * Real.log 2) = 204 * Real.log 2 + 204 * ((2 : ℝ) ^ (-(22 : ℤ)) * Real.log 2) := by ring
+    rw [e] at h
+    generalize (2 : ℝ) ^ (-(22 : ℤ)) * Real.log 2 = q at h hdl
+    generalize Real.log 2 = t at h h2
+    norm_num at h2
+    linarith
+  exact abs_le.mpr ⟨by nlinarith [sq_nonneg (a - 12), sq_nonneg (a + 12)], by nlinarith [sq_nonneg (a - 12), sq_nonneg (a + 12)]⟩
+
+/-- why `gaussRand_real_bound` must not be read with the rounded `length2`: in the subnormal range `L < x²` is possible
+(`L = 2^-149`, `x² = 1.25 L`), and then `x² ≤ (1+δ) L` needs `δ` up to 1/2 -/
+example : ∃ x L : ℝ, (2 : ℝ) ^ (-(149 : ℤ)) ≤ L ∧ L < 1 ∧ x * x ≤ (3 / 2) * L ∧ L < x * x := by
+  refine ⟨Real.sqrt ((5 / 4) * (2 : ℝ) ^ (-(149 : ℤ))), (2 : ℝ) ^ (-(149 : ℤ)), le_refl _, ?_, ?_, ?_⟩
+  · exact zpow_lt_one_of_neg₀ (by norm_num) (by norm_num)
+  · have hp : (0 : ℝ) < (2 : ℝ) ^ (-(149 : ℤ)) := by positivity
+    rw [Real.mul_self_sqrt (by positivity)]; linarith
+  · have hp : (0 : ℝ) < (2 : ℝ) ^ (-(149 : ℤ)) := by positivity
+    rw [Real.mul_self_sqrt (by positivity)]; linarith
+/-- non-vacuity of the hypotheses (Rand32 instance): `x = 1/2`, `L = 1/4` -/
+example : (2 : ℝ) ^ (-(46 : ℤ)) ≤ 1 / 4 ∧ (1 / 4 : ℝ) < 1 ∧ (1 / 2 : ℝ) * (1 / 2) ≤ (1 + 2 ^ (-(22 : ℤ))) * (1 / 4) := by
+  have hp : (0 : ℝ) ≤ (2 : ℝ) ^ (-(22 : ℤ)) := by positivity
+  have h1 : (2 : ℝ) ^ (-(46 : ℤ)) ≤ 1 / 4 := by norm_num [zpow_neg]
+  exact ⟨h1, by norm_num, by nlinarith⟩
 
 /-! ### non-vacuity of the loop theorems: concrete exiting runs over ℚ / ℝ -/
 
